@@ -99,3 +99,22 @@ theorem C04_ancestor_is_root (ops : List P37.GOp) (hl : P37.LegalGrow {} ops) :
   P37.grow_history_sound ops hl
 
 example : P37.LegalGrow {} P37.exHist := by decide
+
+/-- **C04 (the objects `compute` builds are the forest of the construction).** `P42.runObj` performs, pixel by pixel,
+the object operations of the loop (`Structure(coord, value)`, `_add_pixel`, `_merge` + `structures.pop`, `Structure(…,
+children=adjacent)`) on the object heap of `ADModel/Cache.lean`. For every environment and duplicate-free order the
+heap is well formed, cached ancestors stay proper ancestors, and its parentless live objects, read as trees, are exactly
+`run E order`. -/
+theorem C04_objects_refine_construction (E : Env) (order : List Nat) (hnd : order.Nodup) :
+    P17.WF (P42.runObj E order) ∧ P37.AncSound (P42.runObj E order) ∧
+    P35.absF (P42.runObj E order) (P42.runObj E order).size (P42.runO E order).roots = run E order ∧
+    (P42.runO E order).roots.Nodup ∧ ∀ r, r ∈ (P42.runO E order).roots ↔ r ∈ P35.rootsOf (P42.runObj E order) :=
+  P42.runObj_refines E order hnd
+
+/-- … and at every point of that real object history the cached `Structure.ancestor` of any live structure is the
+current root (the abstract statement is `C04_ancestor_is_root`) -/
+theorem C04_ancestor_sound_in_compute (E : Env) (order pre : List Nat) (hnd : order.Nodup) (hpre : pre <+: order)
+    (i : Nat) (hi : i ∈ (P42.runObj E pre).alive) :
+    ((P42.runObj E pre).ancestor (P42.runObj E pre).size i).2 = (P42.runObj E pre).specRoot (P42.runObj E pre).size i ∧
+    P37.IsRootOf (P42.runObj E pre) ((P42.runObj E pre).ancestor (P42.runObj E pre).size i).2 :=
+  P42.runObj_ancestor_sound E order pre hnd hpre i hi
